@@ -152,6 +152,15 @@ Holding(t) == InCS(t) \/ pc[t] \in {"rr_rm", "wr_nw_rel"}
 Mutex == \A w \in Writers : Holding(w) => \A t \in Threads \ {w} : ~Holding(t)
 ReleaseHeld == \A t \in Threads : OpOf(pc[t]) = "release" => owner[LockOf(pc[t])] # 0
 
+Counted(t) == IF t \in Readers
+              THEN pc[t] \in {"ra_nw", "ra_rm_rel", "ra_nr_rel", "ra_rq_rel", "r_cs", "rr_rm"}
+              ELSE pc[t] \in {"wa_nr", "wa_wm_rel", "wa_nw", "w_cs", "wr_nw_rel", "wr_wm"}
+CountersOK == /\ rc = Cardinality({t \in Readers : Counted(t)})
+              /\ wc = Cardinality({t \in Writers : Counted(t)})
+              /\ (\E t \in Readers : InCS(t)) => owner["nw"] \in Readers
+              /\ (\E t \in Writers : InCS(t)) => owner["nw"] \in Writers /\ owner["nr"] \in Writers
+              /\ \A t \in Threads : left[t] = 0 <=> pc[t] = "done"
+
 (* ENABLED Step(t) written out (Apalache has no ENABLED; TLC: MC_RWLockIndEq!EnabledEq) *)
 Enabled(t) == /\ pc[t] \in (IF t \in Readers THEN RLabels ELSE WLabels)
               /\ OpOf(pc[t]) = "acquire" => owner[LockOf(pc[t])] = 0
@@ -214,5 +223,5 @@ Arbitrary == /\ pc \in [Threads -> Labels]
 IndInit == Arbitrary /\ IndInv
 
 (* what the invariant implies (checked on IndInit with --length=0) *)
-Safety == Mutex /\ ReleaseHeld /\ NoDeadlock
+Safety == Mutex /\ ReleaseHeld /\ NoDeadlock /\ CountersOK
 =============================================================================
